@@ -1,6 +1,7 @@
 package props
 
 import (
+	"bytes"
 	"context"
 	"crypto/sha1"
 	"fmt"
@@ -118,6 +119,27 @@ func init() {
 			}
 		}
 	}
+	// writes with two fields missing (an immutable put is a put without k, sig, salt - and, by BEP 44,
+	// without seq), and the plain immutable shapes
+	for _, m := range []string{"announce_peer", "put"} {
+		full := fullArgs(m)
+		var keys []string
+		for k := range full {
+			keys = append(keys, k)
+		}
+		sort.Strings(keys)
+		for i, k1 := range keys {
+			for _, k2 := range keys[i+1:] {
+				a := cloneM(full)
+				delete(a, k1)
+				delete(a, k2)
+				addHostile("q/"+m+"/-"+k1+"-"+k2, q(m, a, true))
+			}
+		}
+	}
+	addHostile("q/put/immutable", q("put", sim.M{"id": sim.IDStr(peerID), "token": "TOKEN", "v": "imm", "seq": 0}, true))
+	addHostile("q/put/immutable-noseq", q("put", sim.M{"id": sim.IDStr(peerID), "token": "TOKEN", "v": "imm"}, true))
+	addHostile("q/put/immutable-nov", q("put", sim.M{"id": sim.IDStr(peerID), "token": "TOKEN"}, true))
 	// field-length and value sweeps on the methods that use the field
 	for _, f := range []struct {
 		field   string
@@ -544,6 +566,7 @@ func (y *c01Sys) answerPending(letter string, all bool) int {
 //	R:... / X:...            answer every pending outbound query with this hostile reply
 //	B:<corpus>:<from>:<to>   deliver the byte-neighbourhood slice of corpus message
 //	T:<seconds>              let virtual time pass
+//
 // sync-level tier (schedule explorer), present only in overlay builds (build tag verife2)
 var (
 	c01SyncTier   func(t *testing.T, w *explore.Worker, idx *int)
@@ -588,9 +611,21 @@ func runC01(t *testing.T, c explore.Case) (res explore.Result) {
 					res.Viol = "HARNESS: unknown hostile letter " + name
 					return
 				}
+				// "<src>+tok": the write carries a token this node really issued to that source
+				srcName, withTok := strings.CutSuffix(srcName, "+tok")
 				src := srcV4
 				if s, ok := sources[srcName]; ok {
 					src = s
+				}
+				if withTok {
+					via := "get"
+					if y.Cfg.PeerStore != nil && strings.Contains(name, "announce_peer") {
+						via = "get_peers"
+					}
+					if tok := y.fetchToken(src, via); tok != "" {
+						b = bytes.ReplaceAll(b, []byte("5:TOKEN"), []byte(fmt.Sprintf("%d:%s", len(tok), tok)))
+					}
+					y.Take()
 				}
 				before := y.S.NumNodes()
 				ws, delivered := y.Deliver(src, b)
@@ -681,7 +716,7 @@ func c01Neighbourhood(ci int) (out [][]byte) {
 func TestC01(t *testing.T) {
 	w := explore.NewWorker("C01")
 	defer w.Finish()
-	w.SetRule("(a) every letter of a structured hostile alphabet (9 methods x {no a, a of wrong type, every field removed or retyped, field length sweeps, port/want/seq/v/salt sweeps, t and y variants}, unsolicited and malformed responses/errors, non-KRPC bytes: empty, truncated, oversize, 10000 keys, 30000-deep nesting, 60000-digit integer, unsorted/duplicate keys) in 6 configurations x 4 start states (empty, populated table, stored items and peers, queries and an announce in flight); (b) all ordered pairs of the letters that produced output or changed the table at depth 1; (c) the complete one-edit byte neighbourhood of a 42-datagram corpus; (d) every one of 10 own operations (ping, find_node, get_peers, get, put, announce, bootstrap, getput.Get mutable/immutable, getput.Put) answered with every single and pairwise combination of benign/malformed reply fields and malformed envelopes; after each history: virtual 40 s, then a fresh ping must be answered (or registered, when passive) and the API must return; a dead or wedged worker is a violation attributed through the write-ahead journal")
+	w.SetRule("(a) every letter of a structured hostile alphabet (9 methods x {no a, a of wrong type, every field removed or retyped, field length sweeps, port/want/seq/v/salt sweeps, t and y variants; every malformed announce_peer / put also behind a valid token}, unsolicited and malformed responses/errors, non-KRPC bytes: empty, truncated, oversize, 10000 keys, 30000-deep nesting, 60000-digit integer, unsorted/duplicate keys) in 6 configurations x 4 start states (empty, populated table, stored items and peers, queries and an announce in flight); (b) all ordered pairs of the letters that produced output or changed the table at depth 1; (c) the complete one-edit byte neighbourhood of a 42-datagram corpus; (d) every one of 10 own operations (ping, find_node, get_peers, get, put, announce, bootstrap, getput.Get mutable/immutable, getput.Put) answered with every single and pairwise combination of benign/malformed reply fields and malformed envelopes; after each history: virtual 40 s, then a fresh ping must be answered (or registered, when passive) and the API must return; a dead or wedged worker is a violation attributed through the write-ahead journal")
 	idx := 0
 	if c01SyncTier != nil {
 		c01SyncTier(t, w, &idx)
@@ -712,6 +747,10 @@ func TestC01(t *testing.T) {
 					}
 					src := []string{"v4", "v6", "mapped"}[i%3]
 					exec(unit, []string{"D:" + n + "@" + src})
+					if strings.HasPrefix(n, "q/put/") || strings.HasPrefix(n, "q/announce_peer/") {
+						// the same malformed write behind a token that passes the token check
+						exec(unit, []string{"D:" + n + "@" + src + "+tok"})
+					}
 				}
 				w.Flush(false)
 			}
